@@ -9,9 +9,9 @@ from vlib.sh.common import HI, LO, TWIN, L, attr, call, const, lam, mcall, name,
 # one representative per class: ascii, quote, backslash, space, Latin-1 above 0x7f, above 0xff, astral, digit
 ALPH = ["a", "'", "\\", " ", "\xe9", "λ", "\U0001d11e", "1"]
 FLOATS = [0.5, 1.0, 1e22, 5e-324]
-NSHAPES = 6
+NSHAPES = 8
 NKINDS = 4
-NEDITS = 12
+NEDITS = 13
 
 
 def leaf_value(kind, ci, s0, s1, sn):
@@ -37,6 +37,11 @@ def build(shape, c, v):
         body = ast.Call(ast.Attribute(ast.Name(v, L), "f", L), [leaf, at], [ast.keyword("k", ast.Constant(1))])
     elif shape == 4:
         body = ast.Dict([ast.Constant("k")], [ast.IfExp(ast.Compare(at, [ast.Lt()], [ast.Constant(2)]), leaf, at)])
+    elif shape == 6:    # an optional child slot: slice with a lower bound only
+        body = ast.Subscript(attr(v, "js"), ast.Slice(leaf, None, None), L)
+    elif shape == 7:    # a lambda parameter with a default value
+        inner = ast.Lambda(ast.arguments([], [ast.arg("j"), ast.arg("k")], None, [], [], None, [leaf]), ast.BinOp(attr("j", "pt"), ast.Add(), ast.Name("k", L)))
+        body = mcall(attr(v, "js"), "Select", inner)
     else:
         body = mcall(attr(v, "js"), "Select", lam("j", ast.BoolOp(ast.And(), [ast.Compare(attr("j", "pt"), [ast.Gt()], [leaf]), attr("j", "ok")])))
     op = "Where" if shape == 1 else "Select"
@@ -155,6 +160,15 @@ def edit(q, c, kind):
                 n.attr = n.attr + "\u03bb"
                 return True
         return False
+    if kind == 12:    # the same child in another optional slot: x[c:] / x[:c], lambda j, k=c / lambda j, *, k=c
+        for n in ast.walk(q):
+            if isinstance(n, ast.Slice) and n.upper is None and n.lower is not None:
+                n.lower, n.upper = None, n.lower
+                return True
+            if isinstance(n, ast.Lambda) and len(n.args.defaults) == 1 and not n.args.kwonlyargs:
+                n.args.kwonlyargs, n.args.kw_defaults = [n.args.args.pop()], [n.args.defaults.pop()]
+                return True
+        return False
     # kind 10: which of two arguments carries the keyword (positional vs keyword argument)
     for n in ast.walk(q):
         if isinstance(n, ast.Call) and n.keywords and n.args:
@@ -181,9 +195,9 @@ def same(a, b):
 
 def c20(code: int, ci: int, s0: int, s1: int, sn: int, rel: int, ek: int, bn: int) -> str:
     """
-    pre: LO <= code < HI and 0 <= code < 24
+    pre: LO <= code < HI and 0 <= code < 32
     pre: 0 <= ci <= 4 and 0 <= s0 < 8 and 0 <= s1 < 8 and 0 <= sn <= 1
-    pre: 0 <= rel <= 6 and 0 <= ek < 12 and 0 <= bn <= 1
+    pre: 0 <= rel <= 6 and 0 <= ek < 13 and 0 <= bn <= 1
     post: (_ == '') != TWIN
     """
     return body(code, ci, s0, s1, sn, rel, ek, bn)
@@ -191,16 +205,16 @@ def c20(code: int, ci: int, s0: int, s1: int, sn: int, rel: int, ek: int, bn: in
 
 def c20t(code: int, ci: int, s0: int, s1: int, sn: int, rel: int, ek: int, bn: int) -> str:
     """
-    pre: LO <= code < HI and 0 <= code < 24
+    pre: LO <= code < HI and 0 <= code < 32
     pre: 0 <= ci <= 4 and 0 <= s0 < 8 and 0 <= s1 < 8 and 0 <= sn <= 2
-    pre: 0 <= rel <= 6 and 0 <= ek < 12 and 0 <= bn <= 1
+    pre: 0 <= rel <= 6 and 0 <= ek < 13 and 0 <= bn <= 1
     post: (_ == '') != TWIN
     """
     return body(code, ci, s0, s1, sn, rel, ek, bn)
 
 
 def body(code, ci, s0, s1, sn, rel, ek, bn):
-    code = pick(code, max(LO, 0), min(HI, 24))
+    code = pick(code, max(LO, 0), min(HI, NSHAPES * NKINDS))
     shape, kind = code // NKINDS, code % NKINDS
     if kind == 2:
         ci = 0
